@@ -80,14 +80,82 @@ func (q *query) constructLookupResult() *lookupWithFollowupResult
   loop over peers invariant res != nil && len(res.state) == len(peers) && res.peers == peers && res.closest == closest && res.completed == completed
   loop over peers invariant all(j, 0, $key, res.state[j] == qpeerset.stateOf(q.queryPeers, peers[j]))
 
-# The lookup loop itself (token/channel argument) is not yet verified: its
-# contract is ASSUMED and listed as such in the evidence.
+# ---- the lookup event loop (C03, C01, C02) ------------------------------------
+# $out: the peers with a spawned worker whose update has not been consumed yet
+# (one token per spawn). TOK: every token holder is a member in state Waiting.
+# ASSUMED (token argument over the update channel, listed in the evidence): an
+# update taken off the channel is the seed message or comes from a worker that
+# still holds its token - workers send exactly one update, of the shape proved
+# in queryPeer, only spawned workers hold the channel, and a token is consumed
+# only when its update is processed. With that, the protocol panics of
+# updateState are unreachable, the loop keeps the set well-formed, never
+# updates after termination, spawns only heard peers and returns only through
+# the deferred wait for every spawned worker.
+ghost field (query) $out map[peer.ID]bool
+immutable field query.queryPeers
+immutable field query.peerTimes
+pred TOK(q *query) = allT(x, peer.ID, imp(q.$out[x], q.queryPeers.$has[x] && qpeerset.stateOf(q.queryPeers, x) == qpeerset.PeerWaiting))
+pred updShape(q *query, m *queryUpdate) = m != nil && ((len(m.unreachable) == 1 && m.unreachable[0] == m.cause && len(m.queried) == 0 && len(m.heard) == 0) || (len(m.queried) == 1 && m.queried[0] == m.cause && len(m.unreachable) == 0))
+pred seedShape(q *query, m *queryUpdate) = m != nil && m.cause == q.dht.self && len(m.queried) == 0 && len(m.unreachable) == 0
+pred updOK(q *query, m *queryUpdate) = seedShape(q, m) || (updShape(q, m) && m.cause != q.dht.self && q.$out[m.cause])
+
+func (q *query) updateState(ctx context.Context, up *queryUpdate)
+  props C03 C01
+  requires QI(q) && TOK(q) && !q.terminated && q.peerTimes != nil && updOK(q, up)
+  modifies *
+  ensures QI(q) && TOK(q) && !q.terminated
+  ensures [token-consumed] allT(x, peer.ID, q.$out[x] == (old(q.$out[x]) && (x != up.cause || seedShape(q, up))))
+  loop over up.heard invariant QI(q) && TOK(q) && q.$out == old(q.$out)
+  loop over up.queried invariant QI(q) && TOK(q) && allT(x, peer.ID, q.$out[x] == (old(q.$out[x]) && (x != up.cause || $key == 0)))
+  loop over up.unreachable invariant QI(q) && TOK(q) && allT(x, peer.ID, q.$out[x] == (old(q.$out[x]) && (x != up.cause || ($key == 0 && len(up.queried) == 0))))
+  ghost at call(SetState): q.$out[$arg0] = false
+
+func (q *query) terminate(ctx context.Context, cancel context.CancelFunc, reason LookupTerminationReason)
+  props C03
+  requires QI(q) && TOK(q)
+  ghostvar $cancelled bool = false
+  modifies *
+  ensures QI(q) && TOK(q) && q.terminated && q.$out == old(q.$out)
+  ensures [internal-first-termination-cancels-the-path] imp(!old(q.terminated), $cancelled)
+  ghost at call(cancel): $cancelled = true
+
+func (q *query) spawnQuery(ctx context.Context, cause peer.ID, queryPeer peer.ID, ch chan<- *queryUpdate)
+  props C03 C01
+  requires QI(q) && TOK(q) && q.queryPeers.$has[queryPeer] && qpeerset.stateOf(q.queryPeers, queryPeer) == qpeerset.PeerHeard
+  modifies *
+  ensures QI(q) && TOK(q) && q.terminated == old(q.terminated)
+  ensures [token-issued] allT(x, peer.ID, q.$out[x] == (old(q.$out[x]) || x == queryPeer))
+  ensures [others-keep-their-state] allT(x, peer.ID, imp(x != queryPeer && old(q.queryPeers.$has[x]), q.queryPeers.$has[x] && qpeerset.stateOf(q.queryPeers, x) == old(qpeerset.stateOf(q.queryPeers, x))))
+  ghost at call(SetState): q.$out[$arg0] = true
+  ghost at go(queryPeer): assert(wgcount(q.waitGroup) == 1 && $arg1 == ch && $arg2 == queryPeer && ctxRoot($arg0) == old(ctxRoot(ctx)))
+
+# (the user's stop function only inspects the set: ASSUMED, as in runLookupWithFollowup)
+role stopFn(qp *qpeerset.QueryPeerset) bool in (q *query) isReadyToTerminate(nPeersToQuery int) (bool, LookupTerminationReason, []peer.ID)
+  pure
+
+func (q *query) isReadyToTerminate(nPeersToQuery int) (bool, LookupTerminationReason, []peer.ID)
+  props C03 C02
+  requires QI(q) && TOK(q) && cfgOK(q.dht) && nPeersToQuery >= 0
+  modifies q.queryPeers.all, q.queryPeers.sorted, q.queryPeers.$idx, q.queryPeers.$src, q.queryPeers.$rank, q.queryPeers.$cnt
+  ensures QI(q)
+  ensures [entries-kept] len(q.queryPeers.all) == old(len(q.queryPeers.all)) && qpeerset.sameEntries(q.queryPeers)
+  ensures [tokens-kept] TOK(q)
+  ensures [next-peers-are-heard-members] imp(!result0, all(i, 0, len(result2), q.queryPeers.$has[result2[i]] && qpeerset.stateOf(q.queryPeers, result2[i]) == qpeerset.PeerHeard) && all(a, 0, len(result2), all(b, a+1, len(result2), result2[a] != result2[b])))
+  ensures imp(result0, len(result2) == 0)
+
 func (q *query) run()
-  trusted
-  requires QI(q) && cfgOK(q.dht)
+  props C03 C01 C02
+  requires QI(q) && cfgOK(q.dht) && !q.terminated && q.peerTimes != nil && allT(x, peer.ID, !q.$out[x])
+  chan_inv ch : updOK(q, $msg)
   modifies *
   ensures QI(q) && cfgOK(q.dht)
   ensures q.queryPeers == old(q.queryPeers) && q.dht == old(q.dht)
+  ensures [returns-terminated-after-waiting-for-every-worker] q.terminated && tagged("wgwait:q.waitGroup")
+  loop 0 invariant QI(q) && TOK(q) && !q.terminated && q.peerTimes != nil
+  loop over qPeers invariant QI(q) && TOK(q) && !q.terminated && all(i, $key, len(qPeers), q.queryPeers.$has[qPeers[i]] && qpeerset.stateOf(q.queryPeers, qPeers[i]) == qpeerset.PeerHeard) && all(a, 0, len(qPeers), all(b, a+1, len(qPeers), qPeers[a] != qPeers[b]))
+  # at most alpha workers are outstanding (a counting argument over the states,
+  # not mechanised): ASSUMED
+  ghost at assign(maxNumQueriesToSpawn): assume(maxNumQueriesToSpawn >= 0)
 
 func (dht *IpfsDHT) runQuery(ctx context.Context, target string, queryFn queryFn, stopFn stopFn) (*lookupWithFollowupResult, *qpeerset.QueryPeerset, error)
   props C01 C03
